@@ -265,7 +265,7 @@ def run_set_impl(t, pool, script):
             failed, o = s.run(f'DUP; NIL {ts}; SWAP; ITER {{ CONS }}', True)
             ob = ('fail', o) if failed else ('keys', [s.key_of(x) for x in reversed(list(o.items))])
         else:
-            failed, o = s.run(f'DROP; PUSH (set {ts}) {{ ' + ' ; '.join(V.elt_src(v) for v in ins[1]) + ' }', False)
+            failed, o = s.run(f'DROP; PUSH (set {ts}) {{ ' + ' ; '.join(V.literal_elt_srcs(t, ins[1])) + ' }', False)
             ob = ('fail', o) if failed else ('none',)
         trace.append((s.collection(), ob))
     return trace
@@ -311,7 +311,7 @@ def run_map_impl(t, pool, script, vt=V.VT_INT):
             failed, o = s.run(f'MAP {{ DROP; {vt.push_val(ins[1])} }}', False)
             ob = ('fail', o) if failed else ('none',)
         else:
-            failed, o = s.run(f'DROP; PUSH (map {ts} {vt.src}) {{ ' + ' ; '.join(f'Elt {V.value_src(k)} {vt.lit(z)}' for k, z in ins[1]) + ' }', False)
+            failed, o = s.run(f'DROP; PUSH (map {ts} {vt.src}) {{ ' + ' ; '.join(f'Elt {V.micheline_src(m)} {vt.lit(z)}' for m, (k, z) in zip(V.literal_michelines(t, [k for k, _ in ins[1]]), ins[1])) + ' }', False)
             ob = ('fail', o) if failed else ('none',)
         trace.append((s.collection(), ob))
     return trace
@@ -509,6 +509,9 @@ def run(ctx: lib.Ctx) -> None:
     for tt, kv in ((('address',), ka), (('key',), kk), (('signature',), ks)):
         corpus.append((False, tt, kv, [('update', v, True) for v in kv] + [('iter',), ('update', kv[0], False), ('update', kv[0], True), ('iter',)]))
         corpus.append((True, tt, kv, [('update', v, i) for i, v in enumerate(kv)] + [('iter',), ('gau', kv[1], None), ('update', kv[1], 9), ('iter',)]))
+    for tt, vv in V.notation_duplicates(rng):
+        corpus.append((False, tt, [vv[0]], [('push', list(vv)), ('size',), ('update', vv[0], True), ('push', [vv[0]]), ('iter',)]))
+        corpus.append((True, tt, [vv[0]], [('push', [(vv[0], 1), (vv[1], 2)]), ('size',), ('push', [(vv[0], 5)]), ('iter',)]))
     ctx.corpus_cases = len(corpus)
     for h in range(-len(corpus), n_hist):
         vt = V.VT_INT
